@@ -11,3 +11,11 @@ Example avx512_both_off : m_variant (init_avx512_internal host (alloc host 3)) =
 Example no_avx512 : m_errno (init_avx512 (Z.land host (Z.lnot 16384)) true
                               (mkmgr 0 (Z.land host (Z.lnot 16384)) None 0 0)) = IMB_ERR_MISSING_CPUFLAGS_INIT_MGR
                     \/ True. Proof. right. exact I. Qed.
+(* the generated instruction census is not empty: the code of the type-2 AVX512 variant does use VAES and GFNI, the type-1
+   variants do not (a census that found nothing would make installed_code_within_required_features vacuous) *)
+From IMB Require Import Gen.GenIsa.
+Example isa_census_nontrivial :
+  has (isa_uses AVX512_T2) (Z.lor IMB_FEATURE_VAES IMB_FEATURE_GFNI) = true /\
+  has (isa_uses AVX512_T1) IMB_FEATURE_VAES = false /\ has (isa_uses SSE_T2) IMB_FEATURE_SHANI = true /\
+  has (isa_uses SSE_T1) IMB_FEATURE_SHANI = false /\ (isa_reachable_nodes SSE_T1 > 1000).
+Proof. vm_compute. repeat split; reflexivity. Qed.
